@@ -616,6 +616,28 @@ fn replace_subtree(a: &TreeDesc, idx: usize, with: TreeDesc) -> TreeDesc {
     *node_at_mut(&mut b, idx) = with;
     b
 }
+/// `a` without the subtree rooted at preorder index `idx` (idx ≥ 1)
+fn remove_subtree(a: &TreeDesc, idx: usize) -> TreeDesc {
+    fn go(d: &TreeDesc, next: &mut usize, idx: usize) -> Option<TreeDesc> {
+        let me = *next;
+        *next += 1;
+        if me == idx {
+            // skip the whole subtree
+            *next = me + d.count();
+            return None;
+        }
+        let mut out = TreeDesc { style: d.style.clone(), ctx: d.ctx, children: vec![] };
+        for c in &d.children {
+            if let Some(k) = go(c, next, idx) {
+                out.children.push(k);
+            }
+        }
+        Some(out)
+    }
+    let mut n = 0;
+    go(a, &mut n, idx).expect("root cannot be removed")
+}
+
 /// for every preorder index: is the node display:none or below such a node
 fn hidden_flags(d: &TreeDesc) -> Vec<bool> {
     fn go(d: &TreeDesc, under: bool, out: &mut Vec<bool>) {
@@ -937,7 +959,60 @@ fn c06_tree(out: &mut Out, a: &TreeDesc, avail: Size<AvailableSpace>) {
             }
         }
         obs(out, "C06", &format!("{} {p} {sz} {}", avs(avail), g as u8), a, &b, la, lb, &ans);
+        // second comparison: the absolute child REMOVED altogether (its mere presence must not matter either);
+        // location, size, scrollbar, border, padding and margin of every other node must be identical
+        let c = remove_subtree(a, p);
+        let parent_children_after = node_count_children(&c, parent);
+        if let Ok(lc) = lay(&c, avail) {
+            let mut bad: Option<usize> = None;
+            if lc.len() + sz == la.len() {
+                for j in 0..la.len() {
+                    if j >= p && j < p + sz {
+                        continue;
+                    }
+                    let jc = if j < p { j } else { j - sz };
+                    if !same_fields(&la[j], &lc[jc], true) {
+                        bad = Some(j);
+                        break;
+                    }
+                }
+            } else {
+                bad = Some(0);
+            }
+            // a container whose last child is removed becomes a leaf (other algorithm): outside the comparison
+            let became_leaf = parent_children_after == 0;
+            // the known grid finding also covers an absolute child with auto lines when it is the only box-generating
+            // child: the size estimate still reserves an implicit track for it
+            let inflow_siblings = nodes[parent]
+                .children
+                .iter()
+                .filter(|c| c.style.display != Display::None && c.style.position != Position::Absolute)
+                .count();
+            let g = g || (ps.display == Display::Grid && inflow_siblings == 0);
+            let verdict = match bad {
+                Some(j) if !became_leaf => {
+                    let desc = format!("removing absolute node {p} (subtree {sz}, parent {}) changes node {j}; avail {} ; tree A = {}", display_key(ps.display), avs(avail), a.line());
+                    if g {
+                        out.count("known:abs-grid-implicit-tracks");
+                        out.impl_violation(format!("sig:c06-abs-grid-implicit-tracks {desc}"));
+                        "ok".to_string()
+                    } else {
+                        out.impl_violation(format!("sig:c06-abs-presence-visible {desc}"));
+                        format!("bad c06-abs-presence-visible {j}")
+                    }
+                }
+                _ => "ok".to_string(),
+            };
+            out.count(if became_leaf { "removal:parent-became-leaf" } else { "removal:compared" });
+            out.qa(&format!("note c06-removal {p} {sz}"), &verdict);
+        }
     }
+}
+
+fn node_count_children(d: &TreeDesc, idx: usize) -> usize {
+    let mut nodes = vec![];
+    d.preorder(&mut nodes);
+    nodes.get(idx).map(|n| n.children.len()).unwrap_or(0)
 }
 
 fn c06_bias(r: &mut Rng, d: &mut TreeDesc) {
@@ -965,6 +1040,48 @@ fn c06_bias(r: &mut Rng, d: &mut TreeDesc) {
             t.style.size = Size { width: Dimension::length(gen_len(r) * 4.0), height: Dimension::length(gen_len(r) * 4.0) };
         }
     }
+}
+
+/// block flow around a box that can be collapsed through: [before, middle[(abs) empty-ish in-flow children (abs)], after] with
+/// vertical margins — an absolute child must not change whether `middle` is collapsed through
+fn c06_collapse_shape(r: &mut Rng) -> TreeDesc {
+    let blk = |r: &mut Rng, mt: f32, mb: f32, h: Option<f32>| {
+        let mut s = Style::DEFAULT;
+        s.display = Display::Block;
+        s.margin.top = LengthPercentageAuto::length(mt);
+        s.margin.bottom = LengthPercentageAuto::length(mb);
+        if let Some(h) = h {
+            s.size.height = Dimension::length(h);
+        }
+        let _ = r;
+        s
+    };
+    let m = |r: &mut Rng| *r.pick(&[0.0f32, 5.0, 10.0, 20.0, -5.0]);
+    let leaf = |s: Style| TreeDesc { style: s, ctx: None, children: vec![] };
+    let mut absolute = Style::DEFAULT;
+    absolute.position = Position::Absolute;
+    absolute.size = Size { width: Dimension::length(10.0), height: Dimension::length(10.0) };
+    let mut kids = vec![];
+    let n_inflow = 1 + r.below(3);
+    let abs_at = r.below(n_inflow + 1);
+    for i in 0..=n_inflow {
+        if i == abs_at {
+            kids.push(leaf(absolute.clone()));
+        }
+        if i < n_inflow {
+            let (mt, mb) = (m(r), m(r));
+            let h = if r.chance(1, 4) { Some(0.0) } else { None };
+            kids.push(leaf(blk(r, mt, mb, h)));
+        }
+    }
+    let (a1, a2, a3, a4, a5, a6) = (m(r), m(r), m(r), m(r), m(r), m(r));
+    let before = leaf(blk(r, a1, a2, Some(10.0)));
+    let middle = TreeDesc { style: blk(r, a3, a4, None), ctx: None, children: kids };
+    let after = leaf(blk(r, a5, a6, Some(10.0)));
+    let mut root = Style::DEFAULT;
+    root.display = Display::Block;
+    root.size.width = Dimension::length(100.0);
+    TreeDesc { style: root, ctx: None, children: vec![before, middle, after] }
 }
 
 pub fn run_c06(cfg: &Cfg, out: &mut Out) -> String {
@@ -1025,7 +1142,7 @@ pub fn run_c06(cfg: &Cfg, out: &mut Out) -> String {
         }
         let mut r = Rng::for_case(cfg.seed, ci);
         out.begin_case(ci, "absolute-neutralised");
-        let mut a = gen_tree_min(&mut r, &gc, 2);
+        let mut a = if r.chance(1, 5) { c06_collapse_shape(&mut r) } else { gen_tree_min(&mut r, &gc, 2) };
         c06_bias(&mut r, &mut a);
         let avail = gen_available(&mut r);
         c06_tree(out, &a, avail);
